@@ -304,7 +304,7 @@ def program_groups(ctx, groups):
     return out
 
 
-HYP_PROPS = {"C01", "C02", "C04", "C05", "C06", "C08", "C11", "C16", "C20"}
+HYP_PROPS = {"C01", "C02", "C03", "C04", "C05", "C06", "C08", "C11", "C16", "C19", "C20"}
 
 
 def check_hypotheses(ctx, cases):
@@ -340,6 +340,8 @@ def check_hypotheses(ctx, cases):
                 ctx.hist["hypothesis_not_met:" + k2] += 1
         if d.get("clean") == "1":
             ctx.hist["programs_in_clean_fragment"] += 1     # the both-directions theorems (Props/Clean, SearchComplete) apply
+        if d.get("straight") == "1" and "(" in c.pattern:
+            ctx.hist["programs_in_straight_capture_fragment"] += 1   # C03b / C03c apply (groups reported = first path's)
         if d.get("clean2") == "1":
             ctx.hist["programs_in_clean2_fragment"] += 1    # … extended by justified UnambiguousRepeat nodes (Props/Clean2*)
         if d.get("nea") == "0" and "q" not in c.flags:
